@@ -31,9 +31,10 @@ def run(ctx):
                 "storage overwritten+freed before the backend runs (ASan build); distinct = distinct (type tuple, expected text)")
     exes = build_all(ctx.tier == "thorough")
     env = {"ASAN_OPTIONS": "detect_leaks=0:abort_on_error=1"}
-    for rr in vf.run_many([(e, [], 1700, env) for e in exes]):
+    # three sanitisation configurations: default predicate, check disabled, user predicate (tabs and UTF-8 bytes pass)
+    for rr in vf.run_many([(e, ["--sanit", str(m)], 1700, env) for m in (0, 1, 2) for e in exes]):
         ctx.absorb(rr, "c04_main")
-    ctx.assumptions.append("oracle = fmtquill::format at the call site, then the default non-printable sanitisation applied by an independent re-implementation")
+    ctx.assumptions.append("oracle = fmtquill::format at the call site, then the configured non-printable sanitisation (default predicate / disabled / a user predicate letting tabs and bytes >= 0x80 through) applied by an independent re-implementation")
     ctx.assumptions.append("normalisations: null C string renders empty; unordered containers with more than one element compared as character multisets")
 
 
